@@ -19,6 +19,12 @@ from lib import core
 
 DRIVER = "drv_spaceinterp"
 LEAN_TARGETS = ["OmplModel.Props.C07", DRIVER]
+# The model (`interpolateTree`) already carries the PROPOSED Mobius repair notes/C07-fix-F159.diff.  While that diff is not
+# in /repo the implementation equals the variant without it (`old159`) on the few lines where the two differ (the F159
+# inputs — which the oracle reports as the known finding F159 — and extrapolation t outside [0,1], which is not judged).
+# Such a line is counted, not reported.  SET TO False ONCE THE DIFF IS COMMITTED: from then on only the repaired variant
+# is accepted (an in-quantifier revert is a VIOLATION either way, through the oracle, as soon as F159 is marked fixed).
+ACCEPT_PRE_F159 = False
 HARNESS = ("spaceinterp", ["spaceinterp.cpp"])
 PI = math.pi
 EPS_D = 2.0 ** -52
@@ -1189,6 +1195,12 @@ def correspondence(script, impl, model):
             if o != m:
                 res.append((i + 1, "diff", "line", False))
             continue
+        pre159 = ACCEPT_PRE_F159 and any(
+            (fm.get(k_ + "_old159") or (fm.get("old159") if k_ == "r" else None)) not in (None, fm[k_]) and
+            fo.get(k_) == (fm.get(k_ + "_old159") or fm.get("old159")) for k_ in ("r", "s3", "direct") if k_ in fm)
+        if pre159:
+            res.append((i + 1, "pre159", "r", False))
+            continue
         for key in ("r", "s3", "direct", "sb", "ef", "et"):
             if key not in fm:
                 continue
@@ -1200,7 +1212,7 @@ def correspondence(script, impl, model):
             if c != "same":
                 # label a tree that lost a fix: the implementation equals a FORMER variant of the SO(2) clause
                 # (before the F61 fix / before the F4 fix) exactly where it differs from the current one
-                former = fo.get(key) in (fm.get("old"), fm.get("old61"), fm.get(key + "_old61"))
+                former = fo.get(key) in (fm.get("old"), fm.get("old61"), fm.get("old159"), fm.get(key + "_old61"))
                 res.append((i + 1, c, key, former))
     return res
 
@@ -1332,6 +1344,9 @@ def run(ck):
             if kind == "drift":
                 ck.drift_events += 1
                 ck.count("drift:" + key)
+                continue
+            if kind == "pre159":
+                ck.count("implementation-without-the-proposed-F159-repair (accepted while ACCEPT_PRE_F159)")
                 continue
             if idx in bad_lines:
                 ck.count("disagreement-on-a-line-the-oracle-rejects" + (":impl-matches-a-former-SO2-clause (F4/F61 fix lost)" if is_old else ""))
